@@ -18,6 +18,7 @@
 #include <unistd.h>
 
 const char *g_exe_path = "";
+extern "C" int __llvm_profile_write_file(void) __attribute__((weak));
 static const char *verif_dir_init()
 {
 	const char *e = getenv("VERIF_DIR");
@@ -1318,6 +1319,8 @@ int driver_main(int argc, char **argv)
 			worker_main(prop, a, w, start, total, pfd[1], &sh[w], t_end);
 			close(pfd[1]);
 			fflush(stdout);
+			if (__llvm_profile_write_file)
+				__llvm_profile_write_file(); // coverage variant only
 			_exit(0);
 		}
 		close(pfd[1]);
